@@ -824,3 +824,29 @@ Definition tn_normalize (tbl : list string) (one : string) (d : nat) (e : fll_en
   normalize (tn_round tbl) tn_close1 (TN one true) d e.
 Definition tn_result_eqb : result (fll_engine tnum) -> result (fll_engine tnum) -> bool := result_engine_eqb tn_eqb.
 Definition lines_eqb : list string -> list string -> bool := list_eqb String.eqb.
+
+(* ------------------------------------------------------------------------------------------------ a three-number instance *)
+(* The smallest number system that satisfies the formatting assumptions and shows what they do NOT imply:
+   NA stands for 1.04 and NB for 1.0 at one decimal (both print "1.0", which reads back as NB; NA is outside the
+   tolerance of 1, NB inside), NC for 0.5. *)
+Inductive n3 : Set := NA | NB | NC.
+Definition n3_fmt (d : nat) (x : n3) : string := match x with NA | NB => "1.0" | NC => "0.5" end.
+Definition n3_parse (s : string) : option n3 :=
+  if String.eqb s "1.0" then Some NB else if String.eqb s "0.5" then Some NC else None.
+Definition n3_round (d : nat) (x : n3) : n3 := match x with NA | NB => NB | NC => NC end.
+Definition n3_close1 (x : n3) : bool := match x with NB => true | _ => false end.
+Definition n3_export (e : fll_engine n3) : list string := export n3_fmt n3_close1 1 e.
+Definition n3_import (lines : list string) : result (fll_engine n3) := import_ n3_parse NC NC NC NB NC lines.
+(* an input variable with one Triangle term of height 1.04 *)
+Definition n3_engine : fll_engine n3 :=
+  {| fe_name := "e"; fe_description := "";
+     fe_inputs := [ {| fi_name := "v"; fi_description := ""; fi_enabled := true; fi_min := NC; fi_max := NC;
+                       fi_lock_range := false; fi_terms := [FShape "t" "Triangle" [NC; NC; NC] NA] |} ];
+     fe_outputs := []; fe_blocks := [] |}.
+(* an output variable with a Constant term whose (unused) height attribute is 0.5 *)
+Definition n3_constant_engine : fll_engine n3 :=
+  {| fe_name := "e"; fe_description := ""; fe_inputs := [];
+     fe_outputs := [ {| fo_name := "o"; fo_description := ""; fo_enabled := true; fo_min := NC; fo_max := NC;
+                        fo_lock_range := false; fo_aggregation := None; fo_defuzzifier := None; fo_default := NC;
+                        fo_lock_previous := false; fo_terms := [FShape "k" "Constant" [NC] NC] |} ];
+     fe_blocks := [] |}.
